@@ -357,6 +357,8 @@ def check(model, rep):
     sx.variable_kinds = VARIABLE_KINDS
     # "while start <= t <= start + duration", "once theta >= theta_s": t and theta are the PRESENT instant and reading - a rule that
     # keeps a reference to the time axis (or a sample list) taken at construction reads a dead object after Powertrain.reset
+    from checks.c12 import check_memoised
+    check_memoised(model, rep, R='C15.pure', only=('/motor_control/', '/sensors/'))
     from sa.aliases import alias_findings
     rule_classes = {c for b in ('RuleBase', 'MotorControlBase', 'SensorBase', 'Timer') for c in [b] + sorted(model.subclasses(b, strict=True))}
     found, nscan = alias_findings(model, rule_classes)
